@@ -16,4 +16,32 @@ CHECKS = {
   text="Generated search over all 21 registered feature-map classes (enumerated from the registry), drawn indices incl. coincident ones, log-uniform parameters, four normaliser classes + factory functions and FeatNormalizerList in all four semilocal modes; each derivative routine is compared with a two-step 4th-order finite difference of its own value routine, additivity and the forward/reverse transpose identity are checked at 1e-12. Exploration: holds on every generated case, not a proof.",
   note="Trusted: numpy arithmetic; finite differences resolve relative errors >= 1e-6; densities below the 1e-10 clamp are outside this check (C08)."),
 }
+
+CHECKS.update({
+ "C05": dict(
+  technique="property-based testing (Hypothesis): adjointness dot tests and dense transpose probing over generated layouts",
+  text="For every forward/backward pair of the nonlocal-feature pipeline, in isolation: <Ax,y> = <x,By> on random and one-hot vectors at 1e-12 of the size of the summed terms, and dense A vs B^T entrywise for small layouts, over synthetic and real (PySCF-derived) AtomicGridsIndexer / ATCBasis / ConvolutionCollection(K) / interpolator layouts, coefficient orders, offsets/strides accepted by the wrappers, thread counts 1/3/16; overwrite/accumulate contracts of output buffers; the composite convolution with a conditioning-scaled bound reported separately; an s-only (lmax=0) stratum under ASan.",
+  note="Trusted: numpy/BLAS; per-step adjointness is exact, the composite is conditioning-limited (1e-13*cond). Dead C paths without a Python caller are not covered (listed in DESIGN.md)."),
+ "C06": dict(
+  technique="property-based testing (Hypothesis): metamorphic relations under rigid motions with a numerically constructed AO representation",
+  text="Generated molecules x PSD density matrices x synthetic models x motions (translation, the 47 non-identity octahedral operations, atom permutations, compositions): the moved molecule gets its own grid and dm' = M^-T dm M^-1 (M by least squares, residual self-test); energy and electron count equal, vmat' = M vmat M^T, normalised feature arrays equal at co-moved grid points (1e-9; 1e-7 with NLDF). Arbitrary rotations: energy and electron count to a calibrated quadrature tolerance per grid level.",
+  note="Rotation tolerances (3e-3 level 1, 2e-3 level 2 of max(|Exc|, 0.05 Eh/electron)) are calibrated on the pinned tree (110 cases, worst 6e-4) and frozen; exact motions carry the sensitivity."),
+ "C10": dict(
+  technique="property-based testing / differential fuzzing over OpenMP team sizes (generated shapes x team sizes x repetitions)",
+  text="Every parallel C entry point reachable from Python is called with generated problem shapes (incl. 0, 1, 2, T-1, T, T+1, primes, smaller than the team) at team sizes 1..64 and repeated; oracle = the same call with a team of one (bit-identical where per-output arithmetic is partition independent, 1e-12 where a BLAS call or reduction is inside), run-to-run equality, poisoned output buffers; end-to-end nr_rks/nr_uks in fresh processes with OMP_NUM_THREADS 1/4/16.",
+  note="Interleavings are NOT controlled: partitioning bugs are found reliably, data races only probabilistically; no thread sanitizer is usable here (gcc TSan + libgomp false positives, clang has no OpenMP runtime)."),
+ "C16": dict(
+  technique="stateful property-based testing (Hypothesis-drawn training histories on synthetic on-disk data sets) against an independent numpy model",
+  text="Synthetic training sets are written to disk in the format MOLGP.load_data reads; drawn histories of store_mol_covs / add_reactions / reset_reactions / fit / compute_likelihood / permute-and-re-add on MOLGP and MOLGP2 with 1-3 kernels (x, c, xc; SEP/NPOL/POL; with and without control-point reduction, derivative entries, all noise options) are compared with an independent numpy implementation of docs/theory/gp.rst: stored covariances and baselines, the two linear systems (backward error 1e-9), prediction space and residual law (1e-8), alpha at 1e-8*cond, permutation/reset invariance, Gaussian log marginal likelihood vs scipy.",
+  note="Two open known findings (derivative entry in a mode-2 reaction; MOLGP2 derivative path) are excluded from the main generators by construction and reproduced by dedicated sub-checks."),
+ "C19": dict(
+  technique="property-based testing (Hypothesis): differential against PySCF Grids + exact index-map invariants + Lebedev orthonormality",
+  text="Generated molecules (H..Ar, 1-4 atoms), levels 0-3 / atom_grid tuple, list, dict incl. 'default', four pruning schemes, five radial schemes, lmax 1-14, alignments, sort on/off, density pruning on both sides of PySCF's acceptance test, reset+rebuild: bit-for-bit multiset equality with pyscf.dft.gen_grid.Grids, injective idx_map with weights/coordinates/owning atoms rebuilt independently, partition tables, padding; tabulated real spherical harmonics orthonormal under each shell's Lebedev rule up to its degree, exactly zero above it and equal to the standard real harmonics; lmax < 1 rejected.",
+  note="PySCF 2.14 Grids is the reference; the sanitizer build is used for the lmax stratum."),
+ "C20": dict(
+  technique="property-based testing (Hypothesis) + exhaustive enumeration of the small plan space against numpy.fft; ASan stratum",
+  text="Rank 1-4, extents 1-12 (24 in the large stratum), 1-6 simultaneous transforms, all 16 flag combinations: output equals numpy fftn/rfftn/ifftn*N/irfftn*N, advertised shapes and dtypes, forward-backward = N*x, wrong shapes raise and leave the plan usable, FFTW-double extent flag 0, malloc and plan bookkeeping balanced; the sub-space rank<=3, extents<=3 (quick) / <=5 (thorough), nt<=3 is enumerated exhaustively.",
+  note="FFTW is replaced by a test double implementing the documented advanced interface (manual 4.4, rdft2-pad); the MKL back end cannot be built here."),
+})
+
 PENDING = {}
